@@ -293,8 +293,9 @@ Definition run_input (f : features) (now : Z) (s : state) (i : input) : outcome 
     match find_account (s_accounts s) a with
     | None => Done s (PDelMeta (TAcc a) k)
     | Some x =>
-      (* UPDATE accounts SET metadata = metadata - key: updated_at untouched; the AFTER UPDATE history trigger fires *)
-      let del := fun y => {| a_addr := a_addr y; a_meta := mdel (a_meta y) k; a_first := a_first y; a_ins := a_ins y; a_upd := a_upd y |} in
+      (* UPDATE accounts SET metadata = metadata - key, updated_at = transaction_date(): the AFTER UPDATE history trigger
+         records the new metadata dated at the deletion (fix: commit in /repo; it used to keep the old updated_at) *)
+      let del := fun y => {| a_addr := a_addr y; a_meta := mdel (a_meta y) k; a_first := a_first y; a_ins := a_ins y; a_upd := now |} in
       let x' := del x in
       Done (with_accounts s (map (fun y => if String.eqb (a_addr y) a then del y else y) (s_accounts s),
                              if f_acc_hist f then s_ahist s ++ [{| ah_addr := a; ah_rev := next_rev_a (s_ahist s) a; ah_date := a_upd x'; ah_meta := a_meta x' |}]
